@@ -8,7 +8,7 @@ sys.path.insert(0, '/verif')
 from vlib import common, build, gfam, smodel, drv
 
 PID = 'C18'
-PYPKG = '/repo/src/exp2python/python'
+PYPKG = common.REPO + '/src/exp2python/python'
 
 INSPECT = r'''
 import sys, json, inspect, importlib
